@@ -21,6 +21,7 @@ class World:
         self._gen = _primes()
         self.values = {}
         self.collecting = None
+        self.last_prefix = None
         self.n_intersectors = 0
         self.canvases = []
 
@@ -45,6 +46,7 @@ class World:
             @staticmethod
             def endCollect(*a, **k):
                 w.events.append(("endCollect", w.collecting))
+                w.last_prefix = w.collecting
                 w.collecting = None
 
             @staticmethod
@@ -76,7 +78,7 @@ class World:
             def dump():
                 class D(dict):
                     def __missing__(self_, k):
-                        return _Level(w, ("dump", k))
+                        return _Level(w, ("dump", w.last_prefix, k))
                 return D()
 
         class Traffic:
@@ -88,13 +90,13 @@ class World:
             def buffetTraffic(bindings, formats, traces, capacity, width, rank_map=None):
                 i = sum(1 for e in w.events if e[0] in ("buffetTraffic", "cacheTraffic"))
                 w.events.append(("buffetTraffic", i, _freeze(bindings), _freeze(traces), capacity, width, _freeze(rank_map)))
-                return [_Level(w, ("traffic", i)), _Level(w, ("traffic-extra", i))]
+                return [_Level(w, ("traffic", w.last_prefix, i)), _Level(w, ("traffic-extra", w.last_prefix, i))]
 
             @staticmethod
             def cacheTraffic(bindings, formats, traces, capacity, width, rank_map=None):
                 i = sum(1 for e in w.events if e[0] in ("buffetTraffic", "cacheTraffic"))
                 w.events.append(("cacheTraffic", i, _freeze(bindings), _freeze(traces), capacity, width, _freeze(rank_map)))
-                return [_Level(w, ("traffic", i)), _Level(w, ("traffic-extra", i))]
+                return [_Level(w, ("traffic", w.last_prefix, i)), _Level(w, ("traffic-extra", w.last_prefix, i))]
 
         class Compute:
             @staticmethod
@@ -105,7 +107,7 @@ class World:
             @staticmethod
             def numSwaps(tensor, depth, radix, next_latency):
                 w.events.append(("numSwaps", tuple(tensor.getRankIds()), depth, radix, next_latency))
-                return w.prime("numSwaps", tuple(tensor.getRankIds()), depth)
+                return w.prime("numSwaps", w.last_prefix, tuple(tensor.getRankIds()), depth)
 
         def Format(tensor, spec):
             if not isinstance(tensor, hf.Tensor):
@@ -119,7 +121,8 @@ class World:
                     w.n_intersectors += 1
                     self_.idx = w.n_intersectors
                     self_.fed = 0
-                    w.events.append(("intersector", kind, self_.idx))
+                    self_.prefix = w.collecting
+                    w.events.append(("intersector", kind, self_.idx, w.collecting))
 
                 def addTraces(self_, *traces):
                     self_.fed += 1
@@ -127,7 +130,7 @@ class World:
 
                 def getNumIntersects(self_):
                     w.events.append(("getNumIntersects", self_.idx, self_.fed))
-                    return w.prime("isect", self_.idx)
+                    return w.prime("isect", self_.prefix, self_.idx)
             I.__name__ = kind
             return I
 
@@ -165,7 +168,7 @@ class _Level:
 
     def __getitem__(self, k):
         key = self.key + (k,)
-        if k in ("read", "write") or (len(key) >= 3 and key[0] == "dump"):
+        if k in ("read", "write") or (len(key) >= 4 and key[0] == "dump"):
             return self.w.prime(*key)
         return _Level(self.w, key)
 
